@@ -55,6 +55,10 @@ package cbe
 //@   modifies _this.reader.reader, _this.reader.pendingErr, _this.bytesRead
 //@   ensures ReaderOK(_this) && _this.bytesRead == 0 && _this.reader.reader == reader
 
+// allocBytes: bytes requested from make() so far (counted by the model at every make). C08: the
+// reader never reserves more than twice what a length field announces, and a length field is only
+// believed up to a limit (a constant, a validated ULEB value, or a chunk size the receiver accepted).
+//@ ghost allocBytes uint64
 //@ func (*Reader).expandBufferTo
 //@   requires len(_this.buffer) >= 16 && 0 <= minSize
 //@   modifies _this.buffer, alloc
@@ -62,6 +66,8 @@ package cbe
 //@   ensures len(_this.buffer) >= 16 && len(_this.buffer) >= minSize
 //@   xensures minSize > 0x8000000000
 //@   ensures _this.buffer == old(_this.buffer) || fresh(_this.buffer)
+//@   ensures allocBytes - old(allocBytes) <= 2 * uint64(minSize)
+//@   xensures allocBytes == old(allocBytes)
 
 //@ func (*Reader).ReadUint8
 //@   use RPATH(_this)
@@ -85,6 +91,8 @@ package cbe
 //@   modifies _this.buffer, alloc
 //@   ensures pos == old(pos) + uint64(count) && _this.bytesRead == old(_this.bytesRead) + uint64(count) && len(_this.buffer) >= count
 //@   ensures pos >= old(pos) && uint64(count) <= inLen - old(pos) && count <= 0x10000000000
+//@   ensures allocBytes - old(allocBytes) <= 2 * uint64(count)
+//@   xensures allocBytes - old(allocBytes) <= 2 * uint64(count) && pos >= old(pos) && pos <= inLen
 //@   ensures forall i uint64 :: i < uint64(count) ==> _this.buffer[i] == in[old(pos)+i]
 //@   xensures inLen - old(pos) < uint64(count) || rfailed || old(_this.bytesRead) + uint64(count) > DocLimit(_this) || count > 0x8000000000
 //@   loop 0 modifies pos, rfailed, zeroReads, _this.reader.pendingErr, _this.bytesRead, mem(_this.buffer)
@@ -101,6 +109,8 @@ package cbe
 //@   modifies _this.buffer, alloc
 //@   ensures pos == old(pos) + uint64(byteCount) && _this.bytesRead == old(_this.bytesRead) + uint64(byteCount)
 //@   ensures pos >= old(pos) && uint64(byteCount) <= inLen - old(pos) && byteCount <= 0x10000000000
+//@   ensures allocBytes - old(allocBytes) <= 2 * uint64(byteCount)
+//@   xensures allocBytes - old(allocBytes) <= 2 * uint64(byteCount) && pos >= old(pos) && pos <= inLen
 //@   ensures len(result) == byteCount && result.arr == _this.buffer.arr && result.off == _this.buffer.off
 //@   ensures forall i uint64 :: i < uint64(byteCount) ==> result[i] == in[old(pos)+i]
 //@   xensures inLen - old(pos) < uint64(byteCount) || rfailed || old(_this.bytesRead) + uint64(byteCount) > DocLimit(_this) || byteCount > 0x8000000000
@@ -137,6 +147,7 @@ package cbe
 //@   modifies pos, rfailed, zeroReads, payload(reader, "*cbe.normalizingReader").pendingErr, mem(buffer), alloc
 //@   ensures NROK(payload(reader, "*cbe.normalizingReader"))
 //@   ensures 0 <= n && pos == old(pos) + uint64(n)
+//@   ensures (allocBytes - old(allocBytes)) >> 4 <= uint64(n)
 //@   ensures err == nil ==> n >= 1
 //@   ensures err == io.EOF ==> pos == inLen && !rfailed
 //@   ensures err != nil && err != io.EOF ==> rfailed
@@ -160,6 +171,8 @@ package cbe
 //@   modifies alloc
 //@   ensures pos > old(pos) && pos - old(pos) == _this.bytesRead - old(_this.bytesRead) && result <= maxValue
 //@   ensures cbe.UlebSmall(in, old(pos)) ==> result == cbe.UlebVal(in, old(pos)) && pos == old(pos) + cbe.UlebSpan(in, old(pos))
+//@   ensures (allocBytes - old(allocBytes)) >> 4 <= pos - old(pos)
+//@   xensures (allocBytes - old(allocBytes)) >> 4 <= pos - old(pos) && pos >= old(pos) && pos <= inLen
 //@   xensures rfailed || inLen - old(pos) < cbe.UlebSpan(in, old(pos)) || old(_this.bytesRead) + cbe.UlebSpan(in, old(pos)) > DocLimit(_this) || !cbe.UlebSmall(in, old(pos)) || cbe.UlebVal(in, old(pos)) > maxValue
 
 //@ func (*Reader).ReadVersion
@@ -167,6 +180,8 @@ package cbe
 //@   modifies alloc
 //@   ensures pos > old(pos) && pos - old(pos) == _this.bytesRead - old(_this.bytesRead)
 //@   ensures cbe.UlebSmall(in, old(pos)) ==> result == cbe.UlebVal(in, old(pos)) && pos == old(pos) + cbe.UlebSpan(in, old(pos))
+//@   ensures (allocBytes - old(allocBytes)) >> 4 <= pos - old(pos)
+//@   xensures (allocBytes - old(allocBytes)) >> 4 <= pos - old(pos) && pos >= old(pos) && pos <= inLen
 //@   xensures rfailed || inLen - old(pos) < cbe.UlebSpan(in, old(pos)) || old(_this.bytesRead) + cbe.UlebSpan(in, old(pos)) > DocLimit(_this) || !cbe.UlebSmall(in, old(pos))
 
 //@ func (*Reader).ReadArrayChunkHeader
@@ -174,6 +189,8 @@ package cbe
 //@   modifies alloc
 //@   ensures pos > old(pos) && pos - old(pos) == _this.bytesRead - old(_this.bytesRead)
 //@   ensures cbe.UlebSmall(in, old(pos)) ==> elementCount == cbe.UlebVal(in, old(pos)) >> 1 && moreChunksFollow == (cbe.UlebVal(in, old(pos)) & 1 == 1) && pos == old(pos) + cbe.UlebSpan(in, old(pos))
+//@   ensures (allocBytes - old(allocBytes)) >> 4 <= pos - old(pos)
+//@   xensures (allocBytes - old(allocBytes)) >> 4 <= pos - old(pos) && pos >= old(pos) && pos <= inLen
 //@   xensures rfailed || inLen - old(pos) < cbe.UlebSpan(in, old(pos)) || old(_this.bytesRead) + cbe.UlebSpan(in, old(pos)) > DocLimit(_this) || !cbe.UlebSmall(in, old(pos))
 
 //@ func (*Reader).ReadIdentifier
